@@ -375,7 +375,7 @@ theorem fwdAt_nonroot (s : SSys α) (ph : String) (depth height : Nat → Nat) (
   simp only [hn, hp, List.isEmpty_cons, Bool.false_eq_true, if_false, List.map_cons, List.map_nil]
   rw [io_eq s depth height D hT n nd hn]
 
-theorem fwdAt_root (s : SSys α) (ph : String) (depth height : Nat → Nat) (D : Nat)
+theorem fwdAt_root_cc (s : SSys α) (ph : String) (depth height : Nat → Nat) (D : Nat)
     (hT : SingleSupplyTree s depth height D) (n : Nat) (nd : SNode α) (hn : s.node? n = some nd)
     (hp : nd.parents = []) (v i : Vec α) (st : St) :
     s.fwdAt ph v i st n =
@@ -393,7 +393,7 @@ theorem backAt_nonroot (s : SSys α) (ph : String) (depth height : Nat → Nat) 
   simp only [hn, hp, List.isEmpty_cons, Bool.false_eq_true, if_false, List.map_cons, List.map_nil]
   rw [io_eq s depth height D hT n nd hn]
 
-theorem backAt_root (s : SSys α) (ph : String) (depth height : Nat → Nat) (D : Nat)
+theorem backAt_root_cc (s : SSys α) (ph : String) (depth height : Nat → Nat) (D : Nat)
     (hT : SingleSupplyTree s depth height D) (n : Nat) (nd : SNode α) (hn : s.node? n = some nd)
     (hp : nd.parents = []) (v i : Vec α) (st : St) :
     s.backAt ph v i st n =
@@ -473,7 +473,7 @@ theorem cell_fwd (s : SSys α) (ph : String) (depth height : Nat → Nat) (D : N
       obtain ⟨x, e, h1, h2⟩ := root_volt nd.comp (nd.pconf.ctx ph) (lo n) _ (im n) hk (hC.root n nd hn hp)
         (imo_nonneg im hC.im_nonneg _) [vget v n] (ioS s nd i) (st.getD n []) hl.2 hio
       refine ⟨x, false, ?_, Or.inr h1, fun _ _ _ _ => ⟨h2, rfl⟩⟩
-      rw [fwdAt_root s ph depth height D hT n nd hn hp]; exact e
+      rw [fwdAt_root_cc s ph depth height D hT n nd hn hp]; exact e
     · obtain ⟨⟨pd, hpd, hpk⟩, hE⟩ := hC.inner n nd p hn hp
       obtain ⟨x, b, e, h1⟩ := edge_volt nd.comp (nd.pconf.ctx ph) (lo p) (lo n) _ (im n) hE
         [vget v p] (ioS s nd i) [sget st p] (hX.volt p) hio
@@ -513,7 +513,7 @@ theorem cell_back (s : SSys α) (ph : String) (depth height : Nat → Nat) (D : 
   | some nd =>
     have hio : ioS s nd i ≤ sumL (nd.childs.map im) := ioS_le s nd i im hC.im_nonneg hi
     rcases hT.parent n nd hn with hp | ⟨p, hp, hdp⟩
-    · rw [backAt_root s ph depth height D hT n nd hn hp]
+    · rw [backAt_root_cc s ph depth height D hT n nd hn hp]
       exact root_curr_le nd.comp _ (lo n) _ (im n) (hT.root_source n nd hn hp) (hC.root n nd hn hp)
         (imo_nonneg im hC.im_nonneg _) _ _ _ hio
     · rw [backAt_nonroot s ph depth height D hT n p nd hn hp]
@@ -563,7 +563,7 @@ theorem node_lt (s : SSys α) (n : Nat) (nd : SNode α) (h : s.node? n = some nd
   by_contra hlt
   simp [Array.getD_eq_getD_getElem?, Array.getElem?_eq_none (Nat.le_of_not_lt hlt)] at h
 
-theorem init_iget (s : SSys α) (ph : String) (n : Nat) :
+theorem init_iget_cc (s : SSys α) (ph : String) (n : Nat) :
     vget (s.init ph).2.1 n = if n < s.hidx then
       (match s.node? n with | some nd => nd.comp.initCurr (nd.pconf.ctx ph) | none => 0) else 0 := by
   unfold SSys.init vget
@@ -604,7 +604,7 @@ theorem inv_init (s : SSys α) (ph : String) (depth height : Nat → Nat) (D : N
         · exact (edge_init nd.comp _ (lo p) (lo n) _ (im n) (hC.inner n nd p hn hp).2 (hC.im_nonneg n)
             (imo_nonneg im hC.im_nonneg _)).1
     · rw [if_neg h]; left; rfl
-  · rw [init_iget]
+  · rw [init_iget_cc]
     by_cases h : n < s.hidx
     · rw [if_pos h]
       cases hn : s.node? n with
@@ -685,7 +685,7 @@ theorem backAt_live_congr (s : SSys α) (ph : String) (depth height : Nat → Na
     rcases hT.parent n nd hn with hp | ⟨p, hp, hdp⟩
     · have hk := hT.root_source n nd hn hp
       have hkl : nd.comp.kind ≠ .iload := by rw [hk]; decide
-      rw [backAt_root s ph depth height D hT n nd hn hp, backAt_root s ph depth height D hT n nd hn hp, hio]
+      rw [backAt_root_cc s ph depth height D hT n nd hn hp, backAt_root_cc s ph depth height D hT n nd hn hp, hio]
       refine (source_congr nd.comp _ hk _ _ _ _ _ ?_).2
       have h1 : off0 (st.getD n []) = false := hs n nd hn hkl
       have h2 : off0 (st'.getD n []) = false := hs' n nd hn hkl
@@ -775,7 +775,7 @@ theorem fwdAt_tree_congr (s : SSys α) (ph : String) (depth height : Nat → Nat
     have hio := ioS_congr s nd i i' (hi nd hn)
     rcases hT.parent n nd hn with hp | ⟨p, hp, hdp⟩
     · have hk := hT.root_source n nd hn hp
-      rw [fwdAt_root s ph depth height D hT n nd hn hp, fwdAt_root s ph depth height D hT n nd hn hp, hio]
+      rw [fwdAt_root_cc s ph depth height D hT n nd hn hp, fwdAt_root_cc s ph depth height D hT n nd hn hp, hio]
       exact (source_congr nd.comp _ hk _ _ _ _ _ (hroot nd hn hp)).1
     · obtain ⟨e1, e2⟩ := hpar nd p hn hp
       rw [fwdAt_nonroot s ph depth height D hT n p nd hn hp,
